@@ -69,6 +69,31 @@ struct Harness
   std::vector<Op> ops;
   Operands od;
   std::string tn;
+  /// read-only sub-part views: in every reached state the accessor, called on a const value, on a Map and on a const Map, must
+  /// show exactly the scalars [off, off+len) of the viewed coefficients (an expectation that does not go through the library:
+  /// comparing value against Map is blind to an accessor that is wrong in the same way on both)
+  struct View
+  {
+    std::string name;
+    std::function<bool(const G &, const MG &, const CMG &, const S * reg)> ok;
+  };
+  std::vector<View> views;
+  template<typename F>
+  void addview(const std::string & name, int off, int len, F f)
+  {
+    views.push_back({"read-only view " + name + " shows exactly its own sub-range (const value, Map, const Map)", [f, off, len](const G & v, const MG & m, const CMG & cm, const S * reg) {
+      auto chk = [&](const auto & x) {
+        const auto w = f(x);  // plain Eigen vector (callers use .eval())
+        if (w.size() != len) return false;
+        for (int i = 0; i < len; ++i) {
+          const S e = w(i);
+          if (memcmp(&e, &reg[off + i], sizeof(S)) != 0) return false;
+        }
+        return true;
+      };
+      return chk(v) && chk(m) && chk(cm);
+    }});
+  }
 
   /// register an operation given as ONE generic lambda applied to both a Map view and a value
   template<typename F>
@@ -104,6 +129,30 @@ struct Harness
     add("m = m * m", 0, N, [](auto & x, const Operands &) { x = x * x; });
     add("m *= m (self)", 0, N, [](auto & x, const Operands &) { x *= x; });
     add("m = exp(log(m))", 0, N, [](auto & x, const Operands &) { x = G::exp(x.log()); });
+    // the object returned by a mutating operator is the object itself: a chained second operation lands in the same storage,
+    // for a view as for a value (chained on both sides, and chained on one side against two statements on the other)
+    add("(m += tangent#0) += tangent#1", 0, N, [](auto & x, const Operands & p) { (x += p.a[0]) += p.a[1]; });
+    add("(m *= value#1) *= value#2", 0, N, [](auto & x, const Operands & p) { (x *= p.g[1]) *= p.g[2]; });
+    add("(m = value#1) *= value#3", 0, N, [](auto & x, const Operands & p) { (x = p.g[1]) *= p.g[3]; });
+    add("(m += tangent#1) *= value#2", 0, N, [](auto & x, const Operands & p) { (x += p.a[1]) *= p.g[2]; });
+    ops.push_back({"(m += tangent#0) += tangent#1 on the view; two statements on the value", 0, N,
+      [](MG & m, S *, const Operands & p) { (m += p.a[0]) += p.a[1]; },
+      [](G & v, const Operands & p) {
+        v += p.a[0];
+        v += p.a[1];
+      }});
+    ops.push_back({"two statements on the view; (v += tangent#0) += tangent#1 on the value", 0, N,
+      [](MG & m, S *, const Operands & p) {
+        m += p.a[0];
+        m += p.a[1];
+      },
+      [](G & v, const Operands & p) { (v += p.a[0]) += p.a[1]; }});
+    ops.push_back({"two statements on the view; (v *= value#1) *= value#2 on the value", 0, N,
+      [](MG & m, S *, const Operands & p) {
+        m *= p.g[1];
+        m *= p.g[2];
+      },
+      [](G & v, const Operands & p) { (v *= p.g[1]) *= p.g[2]; }});
     // assignment from other storage kinds holding operand #1 / from an alias of the same memory
     ops.push_back({"m = Map(other buffer holding value#1)", 0, N,
       [](MG & m, S *, const Operands & p) {
@@ -233,6 +282,7 @@ struct Harness
     }
     for (const auto & a : od.a) cmp((v + a).coeffs(), (m + a).coeffs(), (cm + a).coeffs());
     c.judge("const ops: value = Map = const Map (ulp)", mu, 4.0);
+    for (const auto & vw : views) c.require(vw.name.c_str(), vw.ok(v, m, cm, reg));
     c.require("const operations do not write", memcmp(b.raw, before.raw, sizeof b.raw) == 0);
     // cross-storage construction / assignment copies verbatim
     bool verb = true;
